@@ -134,11 +134,37 @@ def big(spec, acc):
         cand = [m for m in mods if m != "r"]
         hub = rnd.choice(cand)
         imps = set(random_imports(rnd, mods, k_max=rnd.choice([60, 300, 900])))
-        for m in rnd.sample(cand, min(len(cand), rnd.randint(20, 120))):
+        for m in rnd.sample(cand, min(len(cand), rnd.choice([30, 70, 130, 200]))):
             if m != hub and not related(m, hub):
                 imps.add((m, hub))
+        # ... and one module that imports very many others
+        spender = rnd.choice([m for m in cand if m != hub])
+        for m in rnd.sample(cand, min(len(cand), rnd.choice([30, 70, 130, 200]))):
+            if m != spender and not related(m, spender):
+                imps.add((spender, m))
         imps = sorted(imps)
         ev = build(mods, imps)
+        # every rule shape about the heavily imported / heavily importing module itself
+        inside = lambda c, m: m == c or m.startswith(c + ".")  # noqa: E731
+        for centre, others in ((hub, sorted({a for a, b in imps if inside(hub, b) and not inside(hub, a)})), (spender, sorted({b for a, b in imps if inside(spender, a) and not inside(spender, b)}))):
+            # an importer below another importer is already covered by naming the upper one (batches stay unrelated)
+            others = [o for o in others if not any(is_ancestor(p, o) for p in others)]
+            acc.hist("big_fan_of_rule_subject", f"{len(others) // 32 * 32}+")
+            for verb in rrule.VERBS:
+                for d in rrule.DIRS:
+                    for exc, variant in itertools.product((False, True), ("few", "all", "all-but-one", "strangers")):
+                        # a few of the partners, all of them (then nothing else is left over), all but one, or none of them
+                        objs = {"few": lambda: rnd.sample(others, min(len(others), rnd.randint(1, 3))), "all": lambda: list(others), "all-but-one": lambda: list(others)[1:], "strangers": lambda: pick_unrelated(rnd, mods, 2, avoid=[centre])}[variant]()
+                        objs = [o for o in objs if not related(o, centre) and o != centre]
+                        if not objs:
+                            continue
+                        cfg = {"verb": verb, "dir": d, "exc": exc, "subs": [(rnd.choice(["named", "sub"]), centre)], "objs": [("named", o) for o in objs], "anything": False}
+                        if rnd.random() < 0.3:
+                            cfg["subs"], cfg["objs"] = cfg["objs"], cfg["subs"]
+                        _eval(ev, mods, imps, cfg, acc, list_form=True)
+            for d in rrule.DIRS:
+                _eval(ev, mods, imps, {"verb": "should_not", "dir": d, "exc": False, "subs": [("named", centre)], "objs": [], "anything": True}, acc, list_form=True)
+            acc.count("big_fan_rule_families")
         for _k in range(6):
             skind, okind = rnd.choice(["named", "named", "sub"]), rnd.choice(["named", "named", "sub"])
             subs = pick_unrelated(rnd, mods, rnd.randint(10, 60), kind=skind)
